@@ -274,6 +274,18 @@ def check_props(pid):
     return res
 
 
+def run_coqchk(pid):
+    """thorough tier: independent re-check of Props/<pid>.vo and everything it depends on; lists axioms"""
+    with BuildLock():
+        rc, out = sh("timeout 1500 coqchk -silent -o -Q theories Batchie Batchie.Props.%s" % pid, 1600, cwd=COQ)
+    summary = out[out.find("CONTEXT SUMMARY"):] if "CONTEXT SUMMARY" in out else out[-1500:]
+    m = re.search(r"\* Axioms:(.*?)\n\s*\n\* Constants", summary, re.S)
+    axioms = m.group(1).strip() if m else "?"
+    bad = [k for k in ("type-in-type", "unsafe (co)fixpoints", "positivity is assumed")
+           if not re.search(re.escape(k) + r":\s*<none>", summary)]
+    return dict(ok=(rc == 0 and not bad), axioms=axioms, flags_not_none=bad, output=summary[-1200:])
+
+
 # --------------------------------------------------------------------------- model runner
 
 
@@ -516,6 +528,15 @@ def main_check(mod, argv):
     except BuildError as e:
         build_out += "\n" + str(e)
         proof["output"] = str(e)
+    chk = None
+    if tier == "thorough" and proof.get("ok") and not args.replay:
+        try:
+            chk = run_coqchk(pid)
+            if not chk["ok"]:
+                proof["ok"] = False
+                proof["output"] = "coqchk failed:\n" + chk["output"]
+        except Exception as e:  # timeout etc.
+            chk = dict(ok=False, axioms="?", flags_not_none=[], output="coqchk did not finish: %s" % e)
     proof_ok = proof["ok"] and not bad and proof["obligations"] > 0 and proof["discharged"] == proof["obligations"]
     own_axioms = sorted({a for t in proof["theorems"] for a in (t["axioms"] or [])})
 
@@ -653,7 +674,7 @@ def main_check(mod, argv):
             checker_cmd="cd /verif/coq && make (coq_makefile, full .vo) && coqc -Q theories Batchie theories/Props/%s.v" % pid,
             trusted_base=trusted,
             theorems=[dict(name=t["name"], axioms=t["axioms"], meaning=getattr(mod, "THEOREMS", {}).get(t["name"], "")) for t in proof["theorems"]],
-            hygiene_violations=bad,
+            hygiene_violations=bad, coqchk=chk,
             evaluations=len(ran), corpus_cases=n_corpus, distinct_nontrivial=len(distinct),
             rule=getattr(mod, "RULE", ""), feature_histogram=feats, samples=samples[:6],
             correspondence_disagreements=len(corr_only), predicate_failures=len(pred_fail),
